@@ -248,7 +248,19 @@ where
                     }
                     _ => None,
                 };
-                match engine.close_connection(close_error).await {
+                let closed = match &error {
+                    // The peer's close has already arrived (in place of its open): answer it.
+                    // Waiting for the peer's close, as `close_connection` does, would wait for
+                    // a frame that will not come a second time.
+                    OpenError::RemoteClosed | OpenError::RemoteClosedWithError(_) => engine
+                        .connection
+                        .send_close(&mut engine.transport, None)
+                        .await
+                        .map(|_| Running::Stop)
+                        .map_err(Into::into),
+                    _ => engine.close_connection(close_error).await,
+                };
+                match closed {
                     Ok(_) => Err(error),
                     Err(error) => match error {
                         ConnectionInnerError::TransportError(e) => {
